@@ -117,10 +117,14 @@ ApplyBinary(bop, l, r) ==
          ELSE Bin(ChainOp, l, r)
     ELSE \* join, common columns resolved or not (bop.res)
          IF ~(ReqP(bop.p) \subseteq (Cols(l) \cup Cols(r))) THEN Err("ColumnError")
-         ELSE LET common == IF bop.res THEN bop.common
-                            ELSE {c \in Cols(l) \cap Cols(r) : IsKey(c)}
+         ELSE LET \* Join.applied_common_columns: the shared key columns, restricted to an explicit
+                  \* max_columns (field mx, optional) and required to cover min_columns (field mn, optional)
+                  keys == {c \in Cols(l) \cap Cols(r) : IsKey(c)}
+                  common == IF bop.res THEN bop.common
+                            ELSE IF Has(bop, "mx") THEN keys \cap bop.mx ELSE keys
                   jop == JoinOp(bop.p, common)
               IN IF bop.res /\ ~(common \subseteq Cols(l) /\ common \subseteq Cols(r)) THEN Err("ColumnError")
+                 ELSE IF ~bop.res /\ Has(bop, "mn") /\ ~(bop.mn \subseteq common) THEN Err("ColumnError")
                  ELSE IF JoinIdentity(l) /\ AsTrivial(bop.p) = "T" THEN (IF KindOf(Eng(l)) = "sql" THEN Conform(r) ELSE r)
                  ELSE IF JoinIdentity(r) /\ AsTrivial(bop.p) = "T" THEN (IF KindOf(Eng(l)) = "sql" THEN Conform(l) ELSE l)
                  ELSE IF KindOf(Eng(l)) = "sql" THEN SqlAppendBinary(jop, Conform(l), Conform(r))
